@@ -129,6 +129,8 @@ def reproduction_snippet(case: dict, clause: str, detail: str) -> str:
         return (head + "def test_replay():\n    from numba_scfg.core.datastructures.scfg import SCFG\n"
                 "    from numba_scfg.core.datastructures.basic_block import BasicBlock\n"
                 f"    g = {g!r}\n"
+                + ("    # NOTE: in the failing run the graph was constructed with name_gen= of a generator already used by another graph\n"
+                   if (case.get("labeling") or {}).get("generator") else "") +
                 "    scfg = SCFG(graph={n: BasicBlock(name=n, _jump_targets=tuple(t)) for n, t in g.items()})\n"
                 + body + "    return scfg   # inspect: scfg.graph, RegionBlock.header/exiting/subregion, ...\n")
     if isinstance(case.get("source"), str):
@@ -264,7 +266,7 @@ def run_replay(path: str) -> int:
     lab = (data.get("case") or {}).get("labeling")
     if lab:
         from .families import set_labeling
-        set_labeling((lab["prefix"], lab["names"], lab["insertion_order"]))
+        set_labeling((lab["prefix"], lab["names"], lab["insertion_order"], lab.get("generator")))
     acc: Acc = mod.replay(data["case"])
     same = [v for v in acc.viols if v["clause"] == data.get("clause")] or acc.viols
     for v in same[:5]:
